@@ -329,7 +329,7 @@ func cmdCheck(args []string) int {
 				discharged++
 				backends[r.R.Solver]++
 				if len(samples) < 12 {
-					samples = append(samples, map[string]interface{}{"obligation": r.O.Name, "where": r.O.Pos, "what": r.O.Descr, "backend": r.R.Solver, "seconds": round2(r.R.Seconds), "agree": r.R.Agree})
+					samples = append(samples, map[string]interface{}{"obligation": r.O.Name, "where": r.O.Pos, "what": r.O.Descr, "backend": r.R.Solver, "seconds": round2(r.R.Seconds), "agree": nonNilStrings(r.R.Agree)})
 				}
 			} else {
 				violations = append(violations, r)
@@ -461,6 +461,13 @@ func extraKnownSite(known []KnownFinding, knownFail map[int]int, r OblResult) bo
 		}
 	}
 	return false
+}
+
+func nonNilStrings(x []string) []string {
+	if x == nil {
+		return []string{}
+	}
+	return x
 }
 
 func stripOrdinal(n string) string {
